@@ -12,6 +12,15 @@ for _i in (3, 4, 5, 6, 8, 9, 10, 11, 12, 13, 14, 15, 16, 17, 19, 20):
     NOT_APPLICABLE.setdefault(f"C{_i:02d}", _NOT_BUILT)
 
 CHECKS = {
+    "C16": {
+        "text": ("Deductive, restricted to the framework helpers that every hardening codemod uses to edit a call's arguments: "
+                 "LibcstResultTransformer.replace_args (loop invariants: no argument is dropped; every argument whose keyword is not named in "
+                 "the edit is kept, identical and in place; additions only after the original arguments) and _match_with_existing_arg."),
+        "note": ("libcst nodes are opaque immutable records; matchers.matches(arg.keyword, m.Name(n)) is an uninterpreted predicate. Each codemod's "
+                 "own on_result_found, import edits and the remaining helpers are out of reach and listed as such in the evidence."),
+        "design_ref": "DESIGN.md section 4 C16",
+    },
+
     "C05": {
         "text": ("Mixed. Deductive: every write of a pipeline/_process_file targets exactly the file handed to it (fs == store(old fs, file, ...)), "
                  "_process_file hands the selected file name unchanged to the file context. BOUNDED stand-ins (not counted as proved): filter_files "
@@ -88,8 +97,11 @@ CHECKS = {
         "text": ("Deductive, restricted: PackageStore.has_requirement compares canonical names; DependencyWriter.add returns exactly the "
                  "not-yet-declared dependencies in order, each once; write leaves the manifest untouched when nothing is new; the requirements.txt "
                  "writer keeps every original line and appends each requirement once; process_dependencies adds at most one changeset and writes "
-                 "nothing when no store returned a changeset."),
-        "note": "'still parses in its own format', tomlkit/poetry/setup.py/setup.cfg edits: out of reach (only their dynamic-dispatch clauses are assumed).",
+                 "nothing when no store returned a changeset; the pyproject/setup.cfg/setup.py writers against the dispatch clauses (dry-run, single file, "
+                 "None => untouched). BOUNDED stand-in (not counted as proved): the real parser -> has_requirement -> writer chain on generated manifests "
+                 "of all four formats against a reference reading (parses, declared kept, each new requirement once, declared already => untouched, "
+                 "second run adds nothing)."),
+        "note": "tomlkit / configparser / libcst serialisation is third-party and opaque to the engine: covered by the bounded stand-in only.",
         "design_ref": "DESIGN.md section 4 C14",
     },
     "C15": {
